@@ -30,6 +30,7 @@ func init() {
 		Explanation: "Decides structural necessary conditions of convergence, on every path and for every schedule: (1) in the cache, content, version and the event's update flag change together, and an initial load stores content, version 0 and the loaded state only under the not-loaded test of that same entry (PAIR/version-bump); every event is stamped with the pre-update version, applied by its handler, fanned out inside the unlock window and dropped only by the listed discards (CONF/handle-event); (2) cache content and version are written only by cache tasks under the entry's mutex and read under it (CTX/guarded-by); (3) the subscriber applies an event only when it targets its version and advances by one per update (DOM/version-filter); (4) events are processed only with the event gate known open, discarded before load, and reaccess dispatched first (DOM/event-gate); (5) queues are updated in order-preserving forms (FIFO); (6) all mutable subscription state is touched on the connection worker only (CTX/conn); (7) a resource made sendable again must carry a current snapshot (PAIR/snapshot-current: known finding F13); cached model and collection values are never written in place: every container write in the repository is traced to its origin and none originates from Collection.Values / Model.Values (DOM/copy-on-write); a fanned-out ResourceEvent is read-only, no field of it — also one added later — is stored by subscriber-side code (WHO/event-immutable). Not decided: end-to-end equality of the client copy with the service state, Value.Equal, the reset diff (C12), the collector (C02), JSON encodings, legacy-encoding selection. Added after seeding round 7: an entry handed out for subscribing has its messaging-system event subscription on every path (PAIR/cache-count) — without it no event arrives and nothing converges; the cached encodings Model.data/Collection.data are read only by MarshalJSON (WHO/state readers). Added after seeding round 8: a removed cache entry is cleared from every index, the base pointer included (DOM/unregister). Added after seeding round 9: events held back for a resource are let through only after the frame that delivers it (PAIR/rpc-resources).",
 		Assumptions: append([]string{"at most one cache worker runs a resource queue at a time (FIFO/CHAN rules) and one output worker per connection (CTX/conn)"}, baseAssumptions...),
 		Rules: []Rule{
+			{Name: "CONTRA/stale-test", Min: 1, Run: ruleStaleTest, Doc: "no test of a state field contradicts a store of the same object that dominates it (the collector looks at the child it means, not at the receiver it has just reset)"},
 			{Name: "PAIR/rpc-resources", Min: 2, Run: ruleRPCResources, Doc: "events held back for a resource are let through only after the frame that delivers the resource: the client's copy starts from the delivered state"},
 			{Name: "DOM/unregister", Min: 1, Run: ruleUnregister, Doc: "a removed cache entry is cleared from every index: no later subscriber is attached to an orphaned entry that no event or reset refreshes"},
 			{Name: "PAIR/cache-count", Min: 1, Run: rulePairCacheCount, Doc: "an entry handed out for subscribing has its event subscription (no events, no convergence)"},
@@ -63,6 +64,7 @@ func init() {
 		Explanation: "Decides: the typestate table of Subscription.state (who may move a subscription into which state); populate → hand the frame over → release on every path (PAIR/rpc-resources); the shapes the collector relies on: ReleaseRPCResources marks sent, descends into every reference and then opens the loading gate; populateResources* count an edge once, skip sent resources and mark ToSend before descending; removeCount's counter effects follow its direct/sent/tryDelete arguments; every disposed subscription leaves the connection's table (DOM/ref-shapes); references are released with the parent's sent-ness as it was while the edge was counted (PROV/sent-flag: known finding F6); the sent-count is raised once per created edge (PAIR/edge-sent-once: known finding F8); a re-sendable resource has a current snapshot and a closed gate (PAIR/snapshot-current: known finding F13); no change on a collection, no add/remove on a model, decoded indexes inside [0,len] (DOM/index-kind-guard); no event before the hand-over (DOM/event-gate); recursion census. NOT decided — and this is the core of the property: correctness of the two-pass reference-count collector tryDelete/Unsend and of the indirectsent arithmetic on arbitrary reference graphs. Added after seeding round 7: the encoding cached for the latest protocol is read by MarshalJSON only, so a legacy connection is never handed bytes in the wrong dialect (WHO/encoding-cache). Added after seeding round 8: collection snapshots held by still-loading subscriptions are never written in place (DOM/copy-on-write). Added after seeding round 9: marshalers put text into a frame only through json.Marshal, so every frame is well-formed (PROV/json-text).",
 		Assumptions: baseAssumptions,
 		Rules: []Rule{
+			{Name: "CONTRA/stale-test", Min: 1, Run: ruleStaleTest, Doc: "no test of a state field contradicts a store of the same object that dominates it"},
 			{Name: "PROV/json-text", Min: 4, Run: ruleJSONText, Doc: "marshalers put text into a frame only through json.Marshal (every frame is well-formed)"},
 			{Name: "DOM/copy-on-write", Min: 1, Run: ruleCopyOnWrite, Doc: "snapshots held by still-loading subscriptions are never written in place: no reference appears that is neither subscribed nor sent"},
 			{Name: "WHO/encoding-cache", Min: 2, Run: ruleWho([]whoEntry{
@@ -94,6 +96,8 @@ func init() {
 		Explanation: "Decides: the five queues are updated only in order-preserving forms, including the re-queue of not-yet-processed events before newer ones (FIFO/queues); a worker is woken only on the empty→non-empty transition of a resource queue and never while locks are set (DOM/inch-send), so one worker at a time runs a queue; handleEvent stamps, applies and fans out inside one unlock window with no go statement (CONF/handle-event); Subscriber.Event only enqueues and the continuation of every handler runs on the connection worker (CTX/conn); an applied update advances cache and subscriber versions by exactly one and a stamped event is applied only at its version, hence at most once (PAIR/version-bump, DOM/version-filter); nothing is processed before the hand-over or while the gate is closed, with the in-loop re-test (DOM/event-gate); the bookkeeping of a callback slot (in-flight flag, cached verdict, the slot itself) is finished before the slot's continuations run, so a re-access started from inside a callback is not lost (DOM/drain-reentrancy). Not decided: the capacity countdown of the lock list, delivery by the socket, the 'equivalent derived sequence' exception (C12). Added after seeding round 7: the held-back events of a frame's resources are let through only after the frame that first hands the resources over (PAIR/rpc-resources). Added after seeding round 8: in the edit-script back-tracking, branches that compare the same two LCS-table cells cover every ordering, so the derived sequence is not cut short on a tie (TABLE/lcs-exhaustive; decides the present formulation of the algorithm only). Added after seeding round 9: a query event takes one event lock per query request and each is released once, so later events do not overtake pending answers (PAIR/query-lock).",
 		Assumptions: baseAssumptions,
 		Rules: []Rule{
+			{Name: "DOM/ref-shapes", Min: 1, Run: ruleRefShapes, Doc: "the loading gate of a resource is opened by the release that first hands it over, not again for an already sent one (held-back events stay behind the event that delivers what they need)"},
+			{Name: "FIFO/handler-sync", Min: 2, Run: ruleHandlerSync, Doc: "message handlers take messages in synchronously (no go statement before the hand-over to a queue): arrival order is kept"},
 			{Name: "PAIR/query-lock", Min: 1, Run: ruleQueryLock, Doc: "one event lock per query request of a query event, released once: later events do not overtake the pending answers"},
 			{Name: "TABLE/remove-run", Min: 0, Run: ruleRemoveRun, Doc: "derived removes of one loop do not use the loop's ascending counter as index (each remove shifts the rest)"},
 			{Name: "TABLE/lcs-exhaustive", Min: 0, Run: ruleLCSExhaustive, Doc: "the edit-script back-tracking leaves no ordering of two table cells to neither branch (derived sequences are not cut short)"},
@@ -118,6 +122,7 @@ func init() {
 		Explanation: "Decides: every data hand-out (GetRPCResources(false), a loaded subscription handed to the HTTP encoder) lies on a continuation path behind a get grant and not behind a direct-response meta status (DOM/gates); Access.CanGet grants only for no error ∧ get == true and tests the error first (TABLE/access); Cache.Access turns request and decode errors into Access.Error (LIN on its body); a denied request releases its direct subscription (PAIR/direct-count); the verdict is cached only for a result or system.accessDenied, by a live subscription (DOM/verdict-store) and cleared on every trigger before it can be reused (DOM/invalidate); the access request carries the token as the connection holds it when the request is sent (PROV/token-cid) and a reaccess event always reaches the subscribers (CONF/handle-event). Not decided: whether an access answer that was in flight when a trigger arrived is still valid (a runtime relation). Added after seeding round 7: a direct subscription that is kept lies behind a get grant on every continuation (PAIR/direct-count).",
 		Assumptions: baseAssumptions,
 		Rules: []Rule{
+			{Name: "DOM/error-wins", Min: 3, Run: ruleErrorWins, Doc: "a service answer carrying an error member is decoded as that error, whatever else it carries (an access error never grants)"},
 			{Name: "DOM/reset-protocol", Min: 1, Run: ruleResetProtocol, Doc: "a system reset with a matching access pattern reaches every subscriber, whatever the state of the resource"},
 			{Name: "PROV/token-cid", Min: 5, Run: ruleTokenCID, Doc: "the access request carries the connection's token as it is when the request is sent"},
 			{Name: "CONF/handle-event", Min: 1, Run: ruleHandleEvent, Doc: "a reaccess event always reaches the subscribers (it invalidates the grant)"},
@@ -138,6 +143,7 @@ func init() {
 		Explanation: "Decides: both sites of Cache.Call lie behind a call grant on the same continuation path, for the very action value that was checked, and not behind a direct-response status (DOM/gates); CanCall grants only through call == \"*\" or an exact list entry, error first, never for an empty list (TABLE/access); at all 8 request sites the token argument is the connection's token read in the requesting task and the requester is that same connection; the payload builders use the requester's CID() and the given token (PROV/token-cid); token/tid are written only by setToken and every token change re-checks every subscription of the connection, unconditionally (DOM/token-fanout); the cached verdict is cleared on every trigger and before loadAccess can short-circuit on it (DOM/invalidate); the token is read on the connection worker only (CTX/conn: known finding F11 — the throttled re-access reads it on a fresh goroutine); a reaccess event always reaches the subscribers of the resource, also while it is being reset (CONF/handle-event). Not decided: the CanCall list scanner for all strings; validity of an access answer in flight at trigger time. Added after seeding round 7: a token event stores the new token before the subscriptions are re-accessed (DOM/token-fanout). Added after seeding round 8: an invalid pattern in a reset's list is skipped and does not end the scan (DOM/valid-patterns). Added after seeding round 9: every re-access trigger is carried out or recorded — none is dropped because a re-check is already pending (DOM/invalidate).",
 		Assumptions: baseAssumptions,
 		Rules: []Rule{
+			{Name: "DOM/error-wins", Min: 3, Run: ruleErrorWins, Doc: "a service answer carrying an error member is decoded as that error, whatever else it carries (an access error never grants)"},
 			{Name: "DOM/valid-patterns", Min: 1, Run: ruleValidPatterns, Doc: "a system reset re-validates the cached access of every resource matching a valid pattern of its list: an invalid pattern is skipped, it does not end the scan"},
 			{Name: "DOM/reset-protocol", Min: 1, Run: ruleResetProtocol, Doc: "a system reset with a matching access pattern reaches every subscriber, whatever the state of the resource"},
 			{Name: "CONF/handle-event", Min: 1, Run: ruleHandleEvent, Doc: "a reaccess event always reaches the subscribers (it invalidates the grant)"},
@@ -159,6 +165,7 @@ func init() {
 		Explanation: "Decides: every store of a new token on a connection that had one is followed by a reaccess of every subscription, unconditionally per subscription (DOM/token-fanout); reaccess events bypass the not-loaded filters in the cache and in the subscription (CONF/handle-event, DOM/event-gate); the verdict is cleared and the event gate closed before the access request, the continuation validates access and reopens the gate exactly once (DOM/invalidate); denial removes all direct subscriptions and sends the unsubscribe event (DOM/revoke); system reset access patterns reach every subscriber of the base and of every cached query (DOM/reset-protocol); a reset access pattern re-checks every subscriber of a matching resource whatever the resource's state (DOM/reset-protocol, resource level); slot bookkeeping before continuations (DOM/drain-reentrancy). Not decided: timing; pattern matching (C12). Added after seeding round 8: an invalid pattern in a reset's list is skipped and does not end the scan (DOM/valid-patterns).",
 		Assumptions: baseAssumptions,
 		Rules: []Rule{
+			{Name: "FIFO/handler-sync", Min: 2, Run: ruleHandlerSync, Doc: "message handlers take messages in synchronously (no go statement before the hand-over to a queue): arrival order is kept"},
 			{Name: "DOM/valid-patterns", Min: 1, Run: ruleValidPatterns, Doc: "a system reset re-validates the access of every resource matching a valid pattern of its list: an invalid pattern is skipped, it does not end the scan"},
 			{Name: "DOM/drain-reentrancy", Min: 2, Run: ruleDrainReentrancy, Doc: "slot bookkeeping finished before the slot's continuations run (they may re-enter)"},
 			{Name: "DOM/token-fanout", Min: 1, Run: ruleTokenFanout, Doc: "token change re-checks every subscription"},
@@ -176,6 +183,7 @@ func init() {
 		Explanation: "Decides, for every path and schedule: rpc.HandleRequest performs exactly one Reply per dispatched request, directly or inside a handler continuation, and Reply is called from nowhere else (LIN/reply); every continuation parameter of the handlers and combinators is consumed exactly once on every full path — called, delegated to another linear function, or parked in a pending slot (LIN/continuations); pending callback slots are cleared only after draining, or when the connection itself goes away (LIN/drain: known finding F9 — Dispose drops ready callbacks on a live connection); an answered throttled request always frees its slot, so the access checks queued behind it — and the client requests waiting for them — are not stranded (PAIR/throttle-slot); continuations run on the connection worker (CTX/conn); every outcome of a get response collects the subscribers waiting on it (DOM/answer-waiting); slot bookkeeping is finished before continuations run (DOM/drain-reentrancy). Not decided: liveness (that a parked continuation is eventually run), the readyCallback.loading countdown arithmetic. Added after seeding round 7: a subscription gives its count on a ready callback back only after descending into its references, so the count cannot reach zero twice (PAIR/ready-count). Added after seeding round 9: marshalers put text into a frame only through json.Marshal: a frame that fails to encode answers nothing (PROV/json-text).",
 		Assumptions: append([]string{"mq.Client.SendRequest completes exactly once (C18)", "a continuation refused by wsConn.Enqueue because the connection is disposing is an accepted drop"}, baseAssumptions...),
 		Rules: []Rule{
+			{Name: "DOM/onready-inline", Min: 1, Run: ruleOnReadyInline, Doc: "OnReady runs its callback at once only for a ready subscription (everything below it loaded)"},
 			{Name: "PROV/json-text", Min: 4, Run: ruleJSONText, Doc: "marshalers put text into a frame only through json.Marshal (a frame that fails to encode answers nothing)"},
 			{Name: "PAIR/ready-count", Min: 1, Run: ruleReadyCount, Doc: "a subscription gives its ready count back only after descending into its references (no double answer)"},
 			{Name: "WHO/handler-callers", Min: 3, Run: ruleHandlerCallers, Doc: "a derived delete goes through handleEvent, which discards it while the initial get is outstanding (the waiting subscribers stay registered and are answered)"},
@@ -215,6 +223,7 @@ func init() {
 		Explanation: "Decides: getSubscription counts one use on every successful return and none on an error return, errors only when an mq subscription was requested, and with subscribe=true returns only after the entry's mq subscription exists (PAIR/cache-count); callers release the use or hand it to addSubscriber exactly once; a count is released iff a membership was removed and bulk releases equal the set dropped (PAIR/membership); a late or repeated Loaded owns or releases the resource exactly once (PAIR/loaded-handover); eviction re-checks the count under the locks, addCount cancels a pending eviction, removeCount queues the entry exactly at zero, gauges follow the count (DOM/evict); get requests are issued only from addSubscriber / reset (DOM/sub-before-get); a removed entry is cleared from every index it is findable through — base (also for the empty alias), queries, links (DOM/unregister). Not decided: the eviction delay and timers, gauges reading zero at a particular moment. Added after seeding round 7: the connection-side collector marks a held node, or one reached from a kept node, kept — also over an earlier deletion mark — so a shared subscription's cache use is not given back under a live client subscription (DOM/gc-mark). Added after seeding round 8: an entry registered in the cache's index is counted on that very path, because the eviction queue is entered only by releasing a count (PAIR/cache-count). Added after seeding round 9: the use count of a cache entry is touched under the entry's mutex by takers and releasers alike (CTX/guarded-by).",
 		Assumptions: baseAssumptions,
 		Rules: []Rule{
+			{Name: "PAIR/direct-count", Min: 2, Run: rulePairDirect, Doc: "a get that fails (denied access included) leaves no connection-level subscription behind, so the cache entry loses its last user"},
 			{Name: "CTX/guarded-by", Min: 30, Run: ruleGuardedBy, Doc: "the use count of a cache entry is touched under the entry's mutex by both sides (takes by subscribers, releases by cache tasks): no update is lost"},
 			{Name: "DOM/gc-mark", Min: 1, Run: ruleGCMark, Doc: "the collector marks a held node, or one reached from a kept node, kept — also over an earlier deletion mark: a subscription shared with a kept parent is not disposed"},
 			{Name: "DOM/unregister", Min: 1, Run: ruleUnregister, Doc: "a removed cache entry is cleared from every index (base, queries, links)"},
@@ -234,6 +243,7 @@ func init() {
 		Explanation: "Decides: every request site sends the requesting connection's own id and its current token (PROV/token-cid); no value derived from the connection id, the {cid}-expanded resource name/query or the cache's resource name reaches a client-facing sink — event names, resource-set keys, resource-response rids, hrefs (PROV/cid-taint, backward provenance over the whole program); ExpandCID is called on the service-facing side only and expands every tag; token resets re-authenticate only connections whose own tid is listed; events are fanned out to the subscriber set of the resource being handled (DOM/fanout-set); no subscriber-side store into the shared ResourceEvent, whatever the field (WHO/event-immutable). Not decided: what services put into payloads. Added after seeding round 7: the collector rules (PAIR/gc-countdown, DOM/gc-mark) serve this property too: a connection that released a resource on a reference cycle keeps no subscription to it and receives none of its events.",
 		Assumptions: baseAssumptions,
 		Rules: []Rule{
+			{Name: "PROV/payload-fresh", Min: 3, Run: rulePayloadFresh, Doc: "request payloads are fresh encodings owned by their request, never the contents of a reused buffer (no cross-connection id/token)"},
 			{Name: "DOM/gc-mark", Min: 1, Run: ruleGCMark, Doc: "the collector neither keeps released nor disposes still-held subscriptions of a connection"},
 			{Name: "PAIR/gc-countdown", Min: 1, Run: ruleGCCountdown, Doc: "a connection that released a resource lying on a reference cycle keeps no subscription to it (and so receives none of its events later)"},
 			{Name: "WHO/event-immutable", Min: 5, Run: ruleEventImmutable, Doc: "a fanned-out event is read-only: no subscriber-side store into the shared ResourceEvent"},
@@ -288,6 +298,7 @@ func init() {
 		Explanation: "Decides: the queue is locked with len(queries) of the map that is iterated unmodified, each iteration releases exactly one lock on every outcome of its request (all early returns are inside the unlock task), nothing returns between locking and the end of the iteration, locks are installed only for a positive count; the request goes to the event's subject with the range key as query; answers are applied through per-iteration values, full model/collection answers only behind the matching kind test (PAIR/query-lock); no deferred closure captures a shared loop variable (DOM/loopvar); an initial load re-initialises an entry only under the not-loaded test of that same entry, so an alias arriving later cannot reset a shared resource (PAIR/version-bump); a repeated Loaded is ignored (LIN/loaded-once); Enqueue wakes no worker while locks are set (DOM/inch-send); unregister clears base / queries / links including the empty alias (DOM/unregister); every outcome of a get response collects the waiting subscribers (DOM/answer-waiting). Not decided: the capacity countdown arithmetic of the lock list; two aliasing gets in flight beyond the loaded-once guard. Added after seeding round 8: a query request that got no answer changes nothing — every path of its completion that applies something has established that the request error is nil (DOM/query-request-error).",
 		Assumptions: baseAssumptions,
 		Rules: []Rule{
+			{Name: "PAIR/membership", Min: 1, Run: rulePairMembership, Doc: "a deleted query resource drops its subscribers: a later unsubscribe on it cannot evict the resource newly cached under the same query"},
 			{Name: "DOM/query-request-error", Min: 1, Run: ruleQueryRequestError, Doc: "a failed query request (no answer) changes nothing and is not read as system.notFound"},
 			{Name: "CONF/worker-loop", Min: 2, Run: ruleWorkerLoops, Doc: "every unlock task appended while another runs is run: the lock loop re-reads the queue length"},
 			{Name: "CTX/async-completion", Min: 1, Run: ruleAsyncCompletion, Doc: "the completion of a request never runs on the sender's stack (senders hold their own mutex)"},
@@ -321,6 +332,8 @@ func init() {
 		Explanation: "Decides the panic classes that have a crisp rule: decoders return no data with an error, so log-and-continue callers cannot apply a partial message, and return the decoded object whenever they report success, so callers that dereference it cannot hit nil (DOM/all-or-nothing); decoded indexes reach slice operations only inside [0,len] with the exact bound for element access vs slicing, content is dereferenced only for the right kind (DOM/index-kind-guard); optional decoded pointers are dereferenced under their nil test or a predicate implying it, null elements of decoded pointer slices are rejected (DOM/opt-deref); explicit panics and unchecked type assertions are the listed ones (CENSUS/panic); no send on a channel that may have been closed (CHAN: known finding F5 for Cache.inCh); recursive cycles are the listed ones with checked guards (REC/census); the mutex acquisition graph is acyclic (LOCK/order); one Done per throttle slot, so the 'negative running counter' panic is unreachable (PAIR/throttle-slot); a failed or malformed re-fetch closes the reset window, so later valid messages are processed normally (DOM/reset-protocol). Not decided: index safety of lcs, ResourcePattern.Match, byte scans in UnmarshalJSON, encoder buffers; JSON library behaviour; memory exhaustion. Added after seeding round 8: a failed query request releases the event lock, so later messages are still processed (PAIR/query-lock).",
 		Assumptions: baseAssumptions,
 		Rules: []Rule{
+			{Name: "TABLE/value-object", Min: 1, Run: ruleValueObject, Doc: "a value object naming two of rid, action and data is refused, not taken for one of them"},
+			{Name: "DOM/error-wins", Min: 3, Run: ruleErrorWins, Doc: "a service answer carrying an error member is decoded as that error, whatever else it carries (an access error never grants)"},
 			{Name: "PAIR/query-lock", Min: 1, Run: ruleQueryLock, Doc: "a failed query request releases its lock: later messages for the resource are still processed"},
 			{Name: "CONF/handle-event", Min: 1, Run: ruleHandleEvent, Doc: "every event, also delete, passes the validation and the listed discards before it is applied"},
 			{Name: "DOM/reset-protocol", Min: 1, Run: ruleResetProtocol, Doc: "a failed or malformed re-fetch closes the reset window: later valid messages are processed normally"},
@@ -341,6 +354,7 @@ func init() {
 		Explanation: "Decides: in both encoders the expansion path is pushed and popped on every successful path, the cycle test and the error-leaf return precede the push, the recursive descent is guarded by the cycle test and the push, so the expansion terminates on cyclic graphs and later siblings are not cut (PAIR/enc-path); the subscription is handed to the renderer before its resources are released, so the rendering is of the graph as cached at response time and not of one that queued events have already changed (PAIR/rpc-resources); HEAD and GET take the same path and HEAD is tested nowhere else; the two encoders agree on the value kinds (TWIN/encode-value); resource responses set Location from the unexpanded rid (PROV/cid-taint clause of C10); every successful path of both encoders, for collections and models of 0, 1 and 2 elements, emits exactly one well-formed JSON value skeleton, and every non-literal write is JSON by construction — json.Marshal, a json.RawMessage from the decoder, an encoded error (PAIR/emit). Not decided — the core: equality of the rendering with the recursive expansion for every graph; JSON well-formedness beyond the guarded structure; RIDToPath/PathToRID as inverse maps. Added after seeding round 7: cached model/collection values already handed to subscriptions are never written in place, so a pending GET renders a state the cache actually had (DOM/copy-on-write). Added after seeding round 8: no error rewrite distinguishes HEAD from GET (TABLE/method-rewrite). Added after seeding round 9: the path reader refuses dots, so the href writer leaves none (TABLE/href-dots).",
 		Assumptions: baseAssumptions,
 		Rules: []Rule{
+			{Name: "DOM/onready-inline", Min: 1, Run: ruleOnReadyInline, Doc: "OnReady runs its callback at once only for a ready subscription (everything below it loaded)"},
 			{Name: "TABLE/href-dots", Min: 1, Run: ruleHrefDots, Doc: "the path reader refuses dots, so the href writer leaves none: every id-derived piece passes the . to / replacement"},
 			{Name: "TABLE/method-rewrite", Min: 2, Run: ruleMethodRewrite, Doc: "HEAD is answered exactly as GET: no error rewrite applies to one and not the other"},
 			{Name: "DOM/copy-on-write", Min: 1, Run: ruleCopyOnWrite, Doc: "the content a pending GET renders is the cached state of some moment: cached model/collection values already handed to subscriptions are never written in place"},
